@@ -15,7 +15,10 @@ def run(ctx, model_ok):
         "level2_preserves_state holds by definition of the model's `restore` once the three regenerated flags are true (restore inside a `finally` directly after the tiling, "
         "no raising statement in between, restore from saved arrays): its content is the AST extraction translate/gen.py:gen_Exits, which looks at top-level statements of "
         "getBH_level2 only — that the finally-block restores EVERY tiled object, that no callee (getBH_level1, field functions, check_chirality's in-place vertex swap) writes "
-        "object state, and that the inputs checks raising before the tiling leave nothing behind, is observed by the snapshot oracle, not proved; Model/Level2State is not run by the driver"])
+        "object state, and that the inputs checks raising before the tiling leave nothing behind, is observed by the snapshot oracle, not proved; Model/Level2State is not run by the driver. "
+        "That each of the three flags is NEEDED is shown by witnesses on Level2State.runFlags (the same transformer with the three facts as arguments and scipy's re-normalisation of the "
+        "tiled orientation path as a parameter): without_finally_flag_state_leaks, with_unprotected_site_state_leaks, with_slicing_renormalisation_leaks / "
+        "with_slicing_unequal_paths_leak; level2_preserves_state_any_norm is the sufficiency for every re-normalisation, without the equal-lengths hypothesis"])
 
 
 replay = _level2.replay
